@@ -202,6 +202,8 @@ def _run_chain(acc, job):
 @st.composite
 def _hyp_case(draw):
     A = draw(S.dag_pattern(6, 9, shapes=("random", "collider", "collider", "dense", "chain", "sparse")))
+    if draw(st.integers(0, 2)) == 0:
+        A = draw(S.embedded(draw(S.dag_pattern(3, 6, shapes=("random", "dense", "collider", "complete")))))
     p = len(A)
     edges = [(i, j) for i in range(p) for j in range(p) if A[i][j]]
     if len(edges) > 11:
